@@ -63,6 +63,9 @@ pub struct Cfg3 {
     /// server: `HandshakeAck::max_packet_size`
     #[serde(default)]
     pub hs_max_packet: Option<u32>,
+    /// server: the per-connection publish service is created only when gate (G_FACT, 0) opens (a slow service factory)
+    #[serde(default)]
+    pub hold_factory: bool,
     pub connect: s3::Connect3,
     /// client role: (session present, return code) of the scripted CONNACK
     pub connack: (bool, u8),
@@ -85,6 +88,7 @@ impl Default for Cfg3 {
             router: false,
             hs: Hs3::default(),
             hs_max_packet: None,
+            hold_factory: false,
             connect: s3::Connect3 { client_id: "cid".into(), clean_session: true, ..Default::default() },
             connack: (false, 0),
         }
@@ -316,7 +320,17 @@ pub async fn server_pipeline(app: Rc<App>, cfg: &Cfg3, sinks: Rc<RefCell<Vec<v3:
         let svc = ServiceFactory::<IoBoxed, SharedCfg>::create(&srv, shared).await.expect("server factory");
         Pipeline::new(ntex::service::boxed::service(svc))
     } else {
-        let srv = builder.publish(fn_service(move |p: v3::Publish| publish_handler(app_pub.clone(), p, 0)));
+        if cfg.hold_factory {
+            app_pub.hold(G_FACT, 0);
+        }
+        let srv = builder.publish(ntex::service::fn_factory_with_config(move |_: v3::Session<()>| {
+            let app = app_pub.clone();
+            async move {
+                // a service factory that takes its time (only when held)
+                app.wait(G_FACT, 0).await;
+                Ok::<_, AppErr>(fn_service(move |p: v3::Publish| publish_handler(app.clone(), p, 0)))
+            }
+        }));
         let svc = ServiceFactory::<IoBoxed, SharedCfg>::create(&srv, shared).await.expect("server factory");
         Pipeline::new(ntex::service::boxed::service(svc))
     }
